@@ -7,8 +7,8 @@ ROOT=/verif
 REPO=${XSIM_REPO:-/repo}
 mkdir -p $ROOT/build/cache $ROOT/bin
 CXX=g++
-RTFLAGS="-std=c++17 -O2 -g -fno-exceptions -ftls-model=initial-exec -fno-pie"
-HFLAGS="-std=c++17 -O1 -fno-inline -g -fsanitize=thread --param tsan-instrument-func-entry-exit=0 -DXENIUM_VERIF -fno-pie -Wno-tsan -Wno-cpp -I$REPO -I$ROOT/xsim -I$ROOT/harness"
+RTFLAGS="-std=c++17 -O2 -g -fno-omit-frame-pointer -fno-exceptions -ftls-model=initial-exec -fno-pie"
+HFLAGS="-std=c++17 -O1 -fno-inline -fno-omit-frame-pointer -g -fsanitize=thread --param tsan-instrument-func-entry-exit=0 -DXENIUM_VERIF -fno-pie -Wno-tsan -Wno-cpp -I$REPO -I$ROOT/xsim -I$ROOT/harness"
 [ "$V" = "P" ] && HFLAGS="$HFLAGS -U__SANITIZE_THREAD__ -DXSIM_VARIANT_P"
 WRAP="-Wl,--wrap=pthread_mutex_lock,--wrap=pthread_mutex_unlock,--wrap=pthread_mutex_trylock,--wrap=sched_yield,--wrap=__assert_fail"
 rt_hash=$(cat $ROOT/xsim/*.cpp $ROOT/xsim/*.inc $ROOT/xsim/*.hpp | sha256sum | cut -c1-24)
